@@ -331,3 +331,54 @@ theorem C17.pinned_impure :
     (decodePinned ty ds [] (0, 7)).1 = .other 1 ∧
     (decodePinned ty ds (decodePinned ty ds [] (0, 3)).2 (0, 7)).1 = .ok 107 := by
   decide
+
+/-! ## The assembler: memoised compilation is unobservable -/
+
+namespace Uniflow.Group
+
+def MemoOK {σ α : Type} (ty : σ → Nat) (cs : List (Compiler σ α)) (m : Memo) : Prop :=
+  ∀ τ, CacheOK ty (compiled cs τ) ((m τ).getD [])
+
+theorem memoOK_step {σ α : Type} (ty : σ → Nat) (cs : List (Compiler σ α)) (m : Memo) (τ : Nat) (s : σ)
+    (hcoh : ∀ τ, Coherent ty (compiled cs τ)) (hm : MemoOK ty cs m) :
+    MemoOK ty cs (asmDecode ty cs m τ s).2 := by
+  intro τ'
+  unfold asmDecode
+  split
+  · exact hm τ'
+  · simp only [Memo.set]
+    by_cases h : τ' = τ
+    · subst h; simp only [if_true, Option.getD_some]; exact C17.cacheOK_nil ty _
+    · simp only [h, if_false]; exact hm τ'
+  · rename_i ds _ _
+    simp only [Memo.set]
+    by_cases h : τ' = τ
+    · subst h
+      simp only [if_true, Option.getD_some]
+      exact C17.cacheOK_step ty _ _ s (hcoh τ') (hm τ')
+    · simp only [h, if_false]; exact hm τ'
+
+theorem memoOK_warm {σ α : Type} (ty : σ → Nat) (cs : List (Compiler σ α))
+    (hcoh : ∀ τ, Coherent ty (compiled cs τ)) (m : Memo) (hist : List (Nat × σ)) (hm : MemoOK ty cs m) :
+    MemoOK ty cs (asmWarm ty cs m hist) := by
+  induction hist generalizing m with
+  | nil => exact hm
+  | cons p rest ih => exact ih _ (memoOK_step ty cs m p.1 p.2 hcoh hm)
+
+end Uniflow.Group
+
+/-- **C17 (assembler level).** For compilers whose compiled decoder lists are coherent, decoding
+source `s` into target type `τ` after *any* history of decodes into the same and other target
+types gives the result of the same decode on a fresh assembler: neither the memoised
+compilation nor any group's cache is observable. -/
+theorem C17.assembler_pure {σ α : Type} (ty : σ → Nat) (cs : List (Compiler σ α))
+    (hcoh : ∀ τ, Coherent ty (compiled cs τ)) (hist : List (Nat × σ)) (τ : Nat) (s : σ) :
+    (asmDecode ty cs (asmWarm ty cs Memo.empty hist) τ s).1 = (asmDecode ty cs Memo.empty τ s).1 := by
+  have hm : MemoOK ty cs (asmWarm ty cs Memo.empty hist) :=
+    memoOK_warm ty cs hcoh _ hist (by intro τ'; exact C17.cacheOK_nil ty _)
+  unfold asmDecode
+  split
+  · rfl
+  · rfl
+  · simp only [Memo.empty, Option.getD_none]
+    exact C17.decode_eq_cold ty _ _ s (hm τ)
